@@ -632,7 +632,7 @@ theorem fact_bitstring_arithmetic :
     Facts.C11.bitstring_setBit = ["q,r := statusListIndex / 8,byte(statusListIndex % 8)", "if statusListIndex < 0 || q >= len(*bs)",
       "return ErrIndexNotInBitstring", "if isSet((*bs)[q],r) != value", "(*bs)[q] ^= 1 << (7 - r)", "return nil"] ∧
     Facts.C11.bitstring_isSet = ["return b >> (7 - r) & 1 == 1"] ∧
-    Facts.C11.bitstring_new = ["bs := bitstring(make(<*ast.ArrayType>,defaultBitstringLengthInBytes))", "return &bs"] := by decide
+    Facts.C11.bitstring_new = ["bs := bitstring(make([]byte,defaultBitstringLengthInBytes))", "return &bs"] := by decide
 
 /-- `EnvOK` for the regenerated constants: the last index is the last bit of the bitstring, and a list is re-issued for
     longer than the minimum remaining validity -/
@@ -735,7 +735,7 @@ theorem fact_issuer_ambassador_store_sites :
     Facts.C11.verifierWiring = ["credentialStatus.VerifySignature = v.VerifySignature"] ∧
     Facts.C11.issuerStatusEntry = ["credentialID := ssi.MustParseURI(fmt.Sprintf(\"%s#%s\",issuerDID.String(),uuid.New().String()))", "if options.WithStatusListRevocation", "credentialStatusEntry,err := i.statusList.Entry(ctx,*issuerDID,revocation.StatusPurposeRevocation)", "unsignedCredential.CredentialStatus = append(unsignedCredential.CredentialStatus,credentialStatusEntry)"] ∧
     Facts.C11.ambassadorConfigure = ["err := n.networkClient.Subscribe(\"vcr_vcs\",n.handleNetworkVCs,n.networkClient.WithPersistency(),network.WithSelectionFilter(<*ast.FuncLit>))", "return event.Type == dag.PayloadEventType && event.Transaction.PayloadType() == types.VcDocumentType", "if err != nil", "return err", "return n.networkClient.Subscribe(\"vcr_revocations\",n.handleNetworkRevocations,n.networkClient.WithPersistency(),network.WithSelectionFilter(<*ast.FuncLit>))", "return event.Type == dag.PayloadEventType && event.Transaction.PayloadType() == types.RevocationLDDocumentType"] ∧
-    Facts.C11.leiaGetRevocations = ["query := leia.New(leia.Eq(leia.NewJSONPath(credential.RevocationSubjectPath),leia.MustParseScalar(id.String())))", "results,err := s.revocationCollection().Find(context.Background(),query)", "if err != nil", "return nil,fmt.Errorf(\"error while getting revocation by id: %w\",err)", "if len(results) == 0", "return nil,ErrNotFound", "revocations := make(<*ast.ArrayType>,len(results))", "range results", "revocation := &credential.Revocation{…}", "if err != nil", "err := json.Unmarshal(result,revocation)", "return nil,err", "revocations[i] = revocation", "return revocations,nil"] ∧
+    Facts.C11.leiaGetRevocations = ["query := leia.New(leia.Eq(leia.NewJSONPath(credential.RevocationSubjectPath),leia.MustParseScalar(id.String())))", "results,err := s.revocationCollection().Find(context.Background(),query)", "if err != nil", "return nil,fmt.Errorf(\"error while getting revocation by id: %w\",err)", "if len(results) == 0", "return nil,ErrNotFound", "revocations := make([]*credential.Revocation,len(results))", "range results", "revocation := &credential.Revocation{}", "if err != nil", "err := json.Unmarshal(result,revocation)", "return nil,err", "revocations[i] = revocation", "return revocations,nil"] ∧
     Facts.C11.verifierIsRevoked = ["_,err := v.store.GetRevocations(credentialID)", "if err != nil", "if errors.Is(err,ErrNotFound)", "return false,nil", "return false,err", "return true,nil"] := by
   decide
 
@@ -744,9 +744,17 @@ set_option maxRecDepth 1000000 in
     particular an error of `updateCredential` / `buildAndSignVC` is RETURNED from the transaction function (`return err`,
     `return nil,nil,err`), so a failing `Sign` rolls the revocation row back instead of committing a stale list -/
 theorem fact_revoke_credential_statements :
-    Facts.C11.revokeStmts = ["statusListIndex,err := strconv.Atoi(entry.StatusListIndex)", "if err != nil", "return err", "if entry.StatusPurpose != StatusPurposeRevocation", "return errUnsupportedPurpose", "if !cs.isManaged(entry.StatusListCredential)", "return errNotFound", "err = cs.db.Model(&credentialIssuerRecord{…}).Select(\"issuer\").First(&issuerStr,\"subject_id = ?\",entry.StatusListCredential).Error", "if err != nil", "return err", "issuerDID,err := did.ParseDID(issuerStr)", "if err != nil", "return err", "kid,_,err := cs.ResolveKey(*issuerDID,nil,resolver.AssertionMethod)", "if err != nil", "return err", "return cs.db.Transaction(<*ast.FuncLit>)", "err = lockCredentialRecord(tx,entry.StatusListCredential)", "if err != nil", "return err", "revocation := revocationRecord{…}", "err = tx.Create(&revocation).Error", "if err != nil", "if errors.Is(err,gorm.ErrDuplicatedKey)", "return errRevoked", "return err", "issuerRecord := new(credentialIssuerRecord)", "err = tx.Preload(\"Revocations\").First(issuerRecord,\"subject_id = ?\",entry.StatusListCredential).Error", "if err != nil", "if errors.Is(err,gorm.ErrRecordNotFound)", "return errNotFound", "return err", "if statusListIndex < 0 || statusListIndex > issuerRecord.LastIssuedIndex", "return ErrIndexNotInBitstring", "transactionContext := context.WithValue(ctx,storage.TransactionKey{…},tx)", "_,credRecord,err := cs.updateCredential(transactionContext,issuerRecord,kid)", "if err != nil", "return err", "return tx.Clauses(clause.OnConflict{…}).Create(credRecord).Error"] ∧
-    Facts.C11.credentialStmts = ["statusListCredentialURL := cs.statusListURL(issuerDID,page)", "if !cs.isManaged(statusListCredentialURL)", "return nil,errNotFound", "credRecord,err := cs.loadCredential(statusListCredentialURL)", "if err == nil && time.Now().Add(minTimeUntilExpired).Before(time.Unix(*credRecord.Expires,0))", "cred,err := vc.ParseVerifiableCredential(credRecord.Raw)", "if err == nil", "return cred,nil", "info := audit.InfoFromContext(ctx)", "if info != nil", "module,operation,ok := strings.Cut(info.Operation,\".\")", "if ok", "ctx = audit.Context(ctx,\"_system_signing_expired_statuslist2021credential\",module,operation)", "kid,_,err := cs.ResolveKey(issuerDID,nil,resolver.AssertionMethod)", "if err != nil", "return nil,err", "err = cs.db.Transaction(<*ast.FuncLit>)", "err = lockCredentialRecord(tx,statusListCredentialURL)", "if err != nil", "return err", "issuerRecord := new(credentialIssuerRecord)", "err = tx.Preload(\"Revocations\").First(issuerRecord,\"subject_id = ?\",statusListCredentialURL).Error", "if err != nil", "return err", "transactionContext := context.WithValue(ctx,storage.TransactionKey{…},tx)", "cred,credRecord,err = cs.updateCredential(transactionContext,issuerRecord,kid)", "if err != nil", "return err", "err = tx.Clauses(clause.OnConflict{…}).Create(credRecord).Error", "if err != nil", "return nil", "if err != nil", "return nil,err", "return cred,nil"] ∧
-    Facts.C11.updateCredentialStmts = ["issuerDID,err := did.ParseDID(issuerRecord.Issuer)", "if err != nil", "return nil,nil,err", "expanded := newBitstring()", "range issuerRecord.Revocations", "if err != nil", "err = expanded.setBit(rev.StatusListIndex,true)", "return nil,nil,err", "encodedList,err := compress(*expanded)", "if err != nil", "return nil,nil,err", "credSubject := &StatusList2021CredentialSubject{…}", "statusListCredential,err := cs.buildAndSignVC(ctx,*issuerDID,*credSubject,kid)", "if err != nil", "return nil,nil,err", "expires := statusListCredential.ExpirationDate.Unix()", "credRecord := &credentialRecord{…}", "return statusListCredential,credRecord,nil"] := by
+    Facts.C11.revokeStmts = ["statusListIndex,err := strconv.Atoi(entry.StatusListIndex)", "if err != nil", "return err", "if entry.StatusPurpose != StatusPurposeRevocation", "return errUnsupportedPurpose", "if !cs.isManaged(entry.StatusListCredential)", "return errNotFound", "err = cs.db.Model(&credentialIssuerRecord{}).Select(\"issuer\").First(&issuerStr,\"subject_id = ?\",entry.StatusListCredential).Error", "if err != nil", "return err", "issuerDID,err := did.ParseDID(issuerStr)", "if err != nil", "return err", "kid,_,err := cs.ResolveKey(*issuerDID,nil,resolver.AssertionMethod)", "if err != nil", "return err", "return cs.db.Transaction(<*ast.FuncLit>)", "err = lockCredentialRecord(tx,entry.StatusListCredential)", "if err != nil", "return err", "revocation := revocationRecord{StatusListCredential:entry.StatusListCredential,StatusListIndex:statusListIndex,CredentialID:credentialID.String()}", "err = tx.Create(&revocation).Error", "if err != nil", "if errors.Is(err,gorm.ErrDuplicatedKey)", "return errRevoked", "return err", "issuerRecord := new(credentialIssuerRecord)", "err = tx.Preload(\"Revocations\").First(issuerRecord,\"subject_id = ?\",entry.StatusListCredential).Error", "if err != nil", "if errors.Is(err,gorm.ErrRecordNotFound)", "return errNotFound", "return err", "if statusListIndex < 0 || statusListIndex > issuerRecord.LastIssuedIndex", "return ErrIndexNotInBitstring", "transactionContext := context.WithValue(ctx,storage.TransactionKey{},tx)", "_,credRecord,err := cs.updateCredential(transactionContext,issuerRecord,kid)", "if err != nil", "return err", "return tx.Clauses(clause.OnConflict{UpdateAll:true}).Create(credRecord).Error"] ∧
+    Facts.C11.credentialStmts = ["statusListCredentialURL := cs.statusListURL(issuerDID,page)", "if !cs.isManaged(statusListCredentialURL)", "return nil,errNotFound", "credRecord,err := cs.loadCredential(statusListCredentialURL)", "if err == nil && time.Now().Add(minTimeUntilExpired).Before(time.Unix(*credRecord.Expires,0))", "cred,err := vc.ParseVerifiableCredential(credRecord.Raw)", "if err == nil", "return cred,nil", "info := audit.InfoFromContext(ctx)", "if info != nil", "module,operation,ok := strings.Cut(info.Operation,\".\")", "if ok", "ctx = audit.Context(ctx,\"_system_signing_expired_statuslist2021credential\",module,operation)", "kid,_,err := cs.ResolveKey(issuerDID,nil,resolver.AssertionMethod)", "if err != nil", "return nil,err", "err = cs.db.Transaction(<*ast.FuncLit>)", "err = lockCredentialRecord(tx,statusListCredentialURL)", "if err != nil", "return err", "issuerRecord := new(credentialIssuerRecord)", "err = tx.Preload(\"Revocations\").First(issuerRecord,\"subject_id = ?\",statusListCredentialURL).Error", "if err != nil", "return err", "transactionContext := context.WithValue(ctx,storage.TransactionKey{},tx)", "cred,credRecord,err = cs.updateCredential(transactionContext,issuerRecord,kid)", "if err != nil", "return err", "err = tx.Clauses(clause.OnConflict{UpdateAll:true}).Create(credRecord).Error", "if err != nil", "return nil", "if err != nil", "return nil,err", "return cred,nil"] ∧
+    Facts.C11.updateCredentialStmts = ["issuerDID,err := did.ParseDID(issuerRecord.Issuer)", "if err != nil", "return nil,nil,err", "expanded := newBitstring()", "range issuerRecord.Revocations", "if err != nil", "err = expanded.setBit(rev.StatusListIndex,true)", "return nil,nil,err", "encodedList,err := compress(*expanded)", "if err != nil", "return nil,nil,err", "credSubject := &StatusList2021CredentialSubject{ID:issuerRecord.SubjectID,Type:StatusList2021CredentialSubjectType,StatusPurpose:StatusPurposeRevocation,EncodedList:encodedList}", "statusListCredential,err := cs.buildAndSignVC(ctx,*issuerDID,*credSubject,kid)", "if err != nil", "return nil,nil,err", "expires := statusListCredential.ExpirationDate.Unix()", "credRecord := &credentialRecord{SubjectID:credSubject.ID,StatusPurpose:credSubject.StatusPurpose,Bitstring:*expanded,Expires:&expires,Raw:statusListCredential.Raw()}", "return statusListCredential,credRecord,nil"] := by
+  decide
+
+set_option maxRecDepth 1000000 in
+/-- every statement of the verifier's `update`: the downloaded list is stored with `OnConflict{UpdateAll:true}` — ALL columns
+    of the row (bitstring, purpose, expiry, raw) are replaced by a refresh, which is what the model's `putCred` does (only
+    gorm's autoCreateTime column `created_at` is left alone, see `Node.stored`) -/
+theorem fact_update_upserts_all_columns :
+    Facts.C11.updateStmts = ["cred,err := cs.download(statusListCredential)", "if err != nil", "return nil,err", "credSubject,err := cs.verify(*cred)", "if err != nil", "return nil,err", "if statusListCredential != credSubject.ID", "return nil,fmt.Errorf(\"status list: wrong credential: expected '%s', got '%s'\",statusListCredential,credSubject.ID)", "expanded,err := expand(credSubject.EncodedList)", "if err != nil", "return nil,err", "if cred.ExpirationDate != nil && !cred.ExpirationDate.IsZero()", "expires := cred.ExpirationDate.Unix()", "expiresPtr = &expires", "sl := credentialRecord{SubjectID:statusListCredential,StatusPurpose:credSubject.StatusPurpose,Bitstring:expanded,Expires:expiresPtr,Raw:cred.Raw()}", "err = cs.db.Clauses(clause.OnConflict{UpdateAll:true}).Create(&sl).Error", "if err != nil", "return &sl,nil"] := by
   decide
 
 end Nuts.C11.Props
